@@ -2009,8 +2009,14 @@ class Interp:
                 a0 = args[0]
                 if isinstance(a0, dict):
                     d.update(a0)
+                elif isinstance(a0, Unknown):
+                    # a copy of an unknown mapping: an unknown mapping (the same symbol: its entries are the original's)
+                    return a0 if not kwargs else Unknown(f"dict({a0.sym}, …)")
                 else:
-                    for k, v in self.iterate(a0):
+                    for kv in self.iterate(a0):
+                        if isinstance(kv, Unknown):
+                            return Unknown(f"dict({_sym(a0)})")
+                        k, v = kv
                         d[k] = v
             d.update(kwargs)
             return d
